@@ -125,6 +125,28 @@ Proof.
   constructor; [|constructor]. split; [exact Hc | reflexivity].
 Qed.
 
+Lemma probe_truth_ok : forall ms w, truth_fails ms = false -> probe_truth ms w = (w, Ok tt).
+Proof.
+  induction ms as [|m rest IH]; intros w H; [reflexivity|].
+  unfold truth_fails in H. cbn [existsb] in H. apply orb_false_iff in H. destruct H as [Hm Hrest].
+  cbn [probe_truth]. destruct (ms_tfault m =? 0); [apply IH; exact Hrest | discriminate].
+Qed.
+
+Lemma probe_truth_err : forall ms w, truth_fails ms = true -> exists k, probe_truth ms w = (w, Err k).
+Proof.
+  induction ms as [|m rest IH]; intros w H; [discriminate|].
+  unfold truth_fails in H. cbn [existsb] in H. cbn [probe_truth].
+  destruct (ms_tfault m =? 0); [apply IH; exact H | eexists; reflexivity].
+Qed.
+
+Lemma conv_like_probe : forall ms, conv_like (probe_truth ms).
+Proof.
+  intros ms w. exists []. rewrite ext_nil. split; [|constructor].
+  destruct (truth_fails ms) eqn:T.
+  - destruct (probe_truth_err ms w T) as [k Hk]. rewrite Hk. reflexivity.
+  - rewrite (probe_truth_ok ms w T). reflexivity.
+Qed.
+
 Lemma conv_like_conv_modules : forall ms i j, conv_like (conv_modules i j ms).
 Proof.
   induction ms as [|m rest IH]; intros i j; cbn [conv_modules].
@@ -144,6 +166,7 @@ Proof.
     apply conv_like_bind; [apply conv_like_hook; lia|]. intros _.
     apply conv_like_bind; [apply conv_like_hook; lia|]. intros _.
     apply conv_like_bind; [apply conv_like_hook; lia|]. intros _.
+    apply conv_like_bind; [apply conv_like_probe|]. intros _.
     apply conv_like_bind; [apply conv_like_conv_modules|]. intros mods.
     apply conv_like_bind; [apply IH|]. intros tl. apply conv_like_ret.
 Qed.
@@ -206,12 +229,12 @@ Qed.
 
 Lemma stage1_cons : forall r records ms results,
   stage1_fails (r :: records) (ms :: results) =
-  (record_faulty r || existsb module_faulty ms) || stage1_fails records results.
+  (record_faulty r || truth_fails ms || existsb module_faulty ms) || stage1_fails records results.
 Proof.
   intros r records ms results. unfold stage1_fails. cbn [length combine existsb fst snd].
   change (S (length results) <? S (length records))%nat with (length results <? length records)%nat.
   destruct (length results <? length records)%nat;
-    destruct (record_faulty r || existsb module_faulty ms); reflexivity.
+    destruct (record_faulty r || truth_fails ms || existsb module_faulty ms); reflexivity.
 Qed.
 
 Lemma conv_records_ok : forall records results i w, stage1_fails records results = false ->
@@ -223,13 +246,15 @@ Proof.
   - destruct results as [|ms results'].
     + unfold stage1_fails in H. cbn in H. discriminate.
     + rewrite stage1_cons in H. apply orb_false_iff in H. destruct H as [H1 Hrest].
-      apply orb_false_iff in H1. destruct H1 as [Hr Hm].
+      apply orb_false_iff in H1. destruct H1 as [Hrt Hm].
+      apply orb_false_iff in Hrt. destruct Hrt as [Hr Ht].
       destruct (record_faulty_false r Hr) as [F1 [F2 [F3 F4]]].
       cbn [conv_records record_events].
       rewrite (bindM_ok _ _ _ _ w _ tt) by (rewrite hook_eq, F1; reflexivity).
       rewrite (bindM_ok _ _ _ _ _ _ tt) by (rewrite hook_eq, F2; reflexivity).
       rewrite (bindM_ok _ _ _ _ _ _ tt) by (rewrite hook_eq, F3; reflexivity).
       rewrite (bindM_ok _ _ _ _ _ _ tt) by (rewrite hook_eq, F4; reflexivity).
+      rewrite (bindM_ok _ _ _ _ _ _ tt (probe_truth_ok ms _ Ht)).
       rewrite (bindM_ok _ _ _ _ _ _ _ (conv_modules_ok ms i 0 _ Hm)).
       rewrite (bindM_ok _ _ _ _ _ _ _ (IH results' (i + 1) _ Hrest)).
       unfold ret. rewrite !ext_ext, !ext_file. unfold expected_data. cbn [combine map fst snd].
@@ -314,6 +339,11 @@ Proof.
         |rewrite (bindM_err _ _ _ _ _ _ (r_f4 r)) by (rewrite hook_eq, F4; reflexivity); eexists; reflexivity].
       assert (Hr : record_faulty r = false) by (unfold record_faulty; rewrite F1, F2, F3, F4; reflexivity).
       rewrite Hr in H. cbn [orb] in H.
+      destruct (truth_fails ms) eqn:Ht.
+      { match goal with |- context [bindM (probe_truth ms) ?f ?w0] =>
+          destruct (probe_truth_err ms w0 Ht) as [k Hk]; rewrite (bindM_err _ _ _ _ _ _ _ Hk) end.
+        eexists. reflexivity. }
+      cbn [orb] in H. rewrite (bindM_ok _ _ _ _ _ _ tt (probe_truth_ok ms _ Ht)).
       destruct (existsb module_faulty ms) eqn:Hm.
       * match goal with |- context [bindM (conv_modules i 0 ms) ?f ?w0] =>
           destruct (conv_modules_err ms i 0 w0 Hm) as [k Hk];
@@ -1121,4 +1151,258 @@ Proof.
   rewrite (convert_all_ok records results tl w Hf) in H. rewrite open_and_write_eq in H.
   change (5 =? 3) with false in H. change (5 =? 5) with true in H. cbv iota in H.
   inversion H; subst w' r. repeat split; reflexivity.
+Qed.
+
+(* ====================================================================== which results are skipped / written *)
+
+(* the same value with another truthiness *)
+Definition set_truth (f : mspec -> Z) (m : mspec) : mspec :=
+  mkM (ms_kind m) (ms_fault m) (ms_val m) (ms_late m) (f m) (ms_ret m) (ms_tfault m).
+Definition retruth (f : mspec -> Z) (results : list (list mspec)) : list (list mspec) :=
+  map (map (set_truth f)) results.
+
+Lemma bindM_ext2 : forall A B (m m' : M A) (f g : A -> M B) w,
+  m w = m' w -> (forall a w1, f a w1 = g a w1) -> bindM m f w = bindM m' g w.
+Proof.
+  intros A B m m' f g w Hm Hf. unfold bindM. rewrite Hm. destruct (m' w) as [w1 [a|k]]; [apply Hf | reflexivity].
+Qed.
+
+Lemma probe_truth_set_truth : forall f ms w, probe_truth (map (set_truth f) ms) w = probe_truth ms w.
+Proof.
+  intros f ms. induction ms as [|m rest IH]; intros w; [reflexivity|].
+  cbn [map probe_truth set_truth ms_tfault]. destruct (ms_tfault m =? 0); [apply IH | reflexivity].
+Qed.
+
+Lemma conv_modules_set_truth : forall f ms i j w,
+  conv_modules i j (map (set_truth f) ms) w = conv_modules i j ms w.
+Proof.
+  intros f ms. induction ms as [|m rest IH]; intros i j w; [reflexivity|].
+  cbn [map conv_modules set_truth ms_kind ms_fault ms_val ms_late ms_ret].
+  destruct (ms_kind m =? 0); [apply IH|]. destruct (ms_kind m =? 2); [|reflexivity].
+  apply bindM_ext2; [reflexivity|]. intros _ w1.
+  apply bindM_ext2; [apply IH|]. intros tl w2. reflexivity.
+Qed.
+
+Lemma conv_records_set_truth : forall f records results i w,
+  conv_records i (retruth f results) records w = conv_records i results records w.
+Proof.
+  intros f records. induction records as [|r rest IH]; intros results i w; [reflexivity|].
+  destruct results as [|ms results']; [reflexivity|].
+  unfold retruth. cbn [map conv_records]. fold (retruth f results').
+  apply bindM_ext2; [reflexivity|]. intros _ w1.
+  apply bindM_ext2; [reflexivity|]. intros _ w2.
+  apply bindM_ext2; [reflexivity|]. intros _ w3.
+  apply bindM_ext2; [reflexivity|]. intros _ w4.
+  apply bindM_ext2; [apply probe_truth_set_truth|]. intros _ w5.
+  apply bindM_ext2; [apply conv_modules_set_truth|]. intros mods w6.
+  apply bindM_ext2; [apply IH|]. intros tl w7. reflexivity.
+Qed.
+
+(* the truthiness of the values plays no part: neither in what write_to_file does ... *)
+Lemma write_truth_irrelevant : forall f records results tl hk w,
+  write_to_file records (retruth f results) tl hk w = write_to_file records results tl hk w.
+Proof.
+  intros f records results tl hk w. unfold write_to_file.
+  assert (E : convert_all records (retruth f results) tl w = convert_all records results tl w).
+  { unfold convert_all. apply bindM_ext2; [apply conv_records_set_truth|]. intros d w1. reflexivity. }
+  rewrite E. reflexivity.
+Qed.
+
+(* ... nor in what dump_records does *)
+Lemma dump_truth_irrelevant : forall f records results hk w,
+  dump_records records (retruth f results) hk w = dump_records records results hk w.
+Proof.
+  intros f records results hk w. unfold dump_records. rewrite conv_records_set_truth. reflexivity.
+Qed.
+
+Lemma run_records_set_truth : forall f rs results i w,
+  run_records i rs (retruth f results) w = run_records i rs results w.
+Proof.
+  intros f rs. induction rs as [|r rs IH]; intros results i w; [destruct results; reflexivity|].
+  destruct results as [|ms results']; [reflexivity|].
+  unfold retruth. cbn [map run_records]. fold (retruth f results').
+  destruct (rp_skip r); [apply IH|].
+  apply bindM_ext2; [reflexivity|]. intros _ w1.
+  destruct (negb (rp_regions r)); [apply IH|].
+  apply bindM_ext2; [reflexivity|]. intros _ w2. apply IH.
+Qed.
+
+(* ... nor anywhere in the run *)
+Lemma run_truth_irrelevant : forall f pl v kind reuse dmeta entries records results hk w,
+  run_antismash pl v kind reuse dmeta entries records (retruth f results) hk w =
+  run_antismash pl v kind reuse dmeta entries records results hk w.
+Proof.
+  intros f pl v kind reuse dmeta entries records results hk w. unfold run_antismash.
+  destruct (before_prepare pl w) as [w1 [[|]|k]]; try reflexivity.
+  destruct (prepare_output_directory v kind reuse dmeta entries) as [[[u|k] kind'] es]; [|reflexivity].
+  assert (E : forall w0, after_prepare pl records (retruth f results) hk w0 = after_prepare pl records results hk w0).
+  { intros w0. unfold after_prepare.
+    apply bindM_ext2.
+    - unfold analysis_phase. apply bindM_ext2; [reflexivity|]. intros _ w2. apply run_records_set_truth.
+    - intros _ w2. apply bindM_ext2; [apply write_truth_irrelevant|]. intros _ w3. reflexivity. }
+  rewrite E. reflexivity.
+Qed.
+
+(* the converted modules of one record: exactly one entry for every value that is not None, keyed by its
+   position, carrying what its to_json returned *)
+Lemma expected_modules_In : forall ms j0 e,
+  In e (expected_modules j0 ms) <->
+  exists j m, nth_error ms j = Some m /\ ms_kind m <> 0 /\
+              e = mkMJ (j0 + Z.of_nat j) (ms_val m) (ms_late m) (ms_ret m).
+Proof.
+  induction ms as [|m rest IH]; intros j0 e.
+  - cbn. split; [contradiction|]. intros [j [m [H _]]]. destruct j; discriminate.
+  - cbn [expected_modules]. destruct (ms_kind m =? 0) eqn:K.
+    + rewrite IH. split.
+      * intros [j [m' [Hn [Hk He]]]]. exists (S j), m'. split; [exact Hn|]. split; [exact Hk|].
+        rewrite He. f_equal. lia.
+      * intros [j [m' [Hn [Hk He]]]]. destruct j as [|j].
+        -- cbn in Hn. inversion Hn; subst m'. lia.
+        -- exists j, m'. split; [exact Hn|]. split; [exact Hk|]. rewrite He. f_equal. lia.
+    + cbn [In]. rewrite IH. split.
+      * intros [He | [j [m' [Hn [Hk He]]]]].
+        -- exists 0%nat, m. split; [reflexivity|]. split; [lia|]. rewrite <- He. f_equal. lia.
+        -- exists (S j), m'. split; [exact Hn|]. split; [exact Hk|]. rewrite He. f_equal. lia.
+      * intros [j [m' [Hn [Hk He]]]]. destruct j as [|j].
+        -- left. cbn in Hn. inversion Hn; subst m'. rewrite He. f_equal. lia.
+        -- right. exists j, m'. split; [exact Hn|]. split; [exact Hk|]. rewrite He. f_equal. lia.
+Qed.
+
+Lemma expected_data_nth : forall records results i r ms,
+  nth_error records i = Some r -> nth_error results i = Some ms ->
+  nth_error (expected_data records results) i = Some (r_orig r, expected_modules 0 ms).
+Proof.
+  induction records as [|r0 rest IH]; intros results i r ms Hr Hm; [destruct i; discriminate|].
+  destruct results as [|ms0 results']; [destruct i; discriminate|].
+  destruct i as [|i].
+  - cbn in Hr, Hm. inversion Hr; inversion Hm; subst. reflexivity.
+  - cbn in Hr, Hm. unfold expected_data. cbn [combine map nth_error]. apply IH; assumption.
+Qed.
+
+Lemma expected_data_length : forall records results,
+  stage1_fails records results = false -> length (expected_data records results) = length records.
+Proof.
+  intros records results H. unfold stage1_fails in H. apply orb_false_iff in H. destruct H as [H _].
+  unfold expected_data. rewrite map_length, combine_length. apply Nat.ltb_ge in H. lia.
+Qed.
+
+Lemma write_ok_contents : forall records results tl hk w w',
+  write_to_file records results tl hk w = (w', Ok tt) ->
+  conversion_fails records results tl = false /\ w_file w' = CNew (expected_data records results).
+Proof.
+  intros records results tl hk w w' H. destruct (write_atomic _ _ _ _ _ _ _ H) as [Hf Hok].
+  destruct (conversion_fails records results tl) eqn:C.
+  - destruct (Hf eq_refl) as [_ [k [E _]]]. discriminate.
+  - split; [reflexivity|]. destruct (Hok eq_refl) as [Hn [H3 H5]].
+    destruct (Z.eq_dec hk 3) as [E3|N3]; [destruct (H3 E3) as [E _]; discriminate|].
+    destruct (Z.eq_dec hk 5) as [E5|N5]; [destruct (H5 E5) as [E _]; discriminate|].
+    apply (Hn N3 N5).
+Qed.
+
+(* a successful write_to_file: the new text has one record entry per record and, in it, an entry for every
+   value of that record's results dictionary that is not None - whatever its truthiness - and for no other *)
+Lemma written_exactly_non_none : forall records results tl hk w w',
+  write_to_file records results tl hk w = (w', Ok tt) ->
+  exists d, w_file w' = CNew d /\ length d = length records /\
+    forall i r ms, nth_error records i = Some r -> nth_error results i = Some ms ->
+      exists mods, nth_error d i = Some (r_orig r, mods) /\
+        forall e, In e mods <->
+                  exists j m, nth_error ms j = Some m /\ ms_kind m <> 0 /\
+                              e = mkMJ (Z.of_nat j) (ms_val m) (ms_late m) (ms_ret m).
+Proof.
+  intros records results tl hk w w' H. destruct (write_ok_contents _ _ _ _ _ _ H) as [C F].
+  exists (expected_data records results). split; [exact F|]. split.
+  - apply expected_data_length. unfold conversion_fails in C.
+    destruct (stage1_fails records results); [discriminate | reflexivity].
+  - intros i r ms Hr Hm. exists (expected_modules 0 ms). split; [apply expected_data_nth; assumption|].
+    intros e. rewrite expected_modules_In. cbn [Z.add]. reflexivity.
+Qed.
+
+Lemma combine_nth_In : forall A B (la : list A) (lb : list B) i a b,
+  nth_error la i = Some a -> nth_error lb i = Some b -> In (a, b) (combine la lb).
+Proof.
+  induction la as [|a0 la IH]; intros lb i a b Ha Hb; [destruct i; discriminate|].
+  destruct lb as [|b0 lb]; [destruct i; discriminate|].
+  destruct i as [|i]; cbn in Ha, Hb.
+  - inversion Ha; inversion Hb; subst. left. reflexivity.
+  - right. apply (IH lb i); assumption.
+Qed.
+
+(* a value that cannot be converted, at any position of any record, makes the plan a failing one - whether the
+   value is truthy or falsy is not asked *)
+Lemma failing_result_fails : forall records results tl i r ms m,
+  nth_error records i = Some r -> nth_error results i = Some ms -> In m ms ->
+  ms_kind m <> 0 ->
+  (ms_kind m <> 2 \/ ms_fault m <> 0 \/ late_faulty (ms_late m) = true) ->
+  conversion_fails records results tl = true.
+Proof.
+  intros records results tl i r ms m Hr Hm Hin K0 Hbad.
+  pose proof (combine_nth_In _ _ _ _ _ _ _ Hr Hm) as Hc.
+  unfold conversion_fails.
+  assert (E0 : ms_kind m =? 0 = false) by lia.
+  destruct (ms_kind m =? 2) eqn:K2.
+  - destruct (ms_fault m =? 0) eqn:F0.
+    + assert (L : late_faulty (ms_late m) = true) by (destruct Hbad as [B|[B|B]]; [lia | lia | exact B]).
+      assert (S2 : stage2_fails records results = true).
+      { unfold stage2_fails. apply existsb_exists. exists (r, ms). split; [exact Hc|]. cbn [snd].
+        apply existsb_exists. exists m. split; [exact Hin|]. unfold module_late_faulty. rewrite K2, L. reflexivity. }
+      rewrite S2. rewrite orb_true_r. reflexivity.
+    + assert (S1 : stage1_fails records results = true).
+      { unfold stage1_fails. apply orb_true_iff. right. apply existsb_exists. exists (r, ms). split; [exact Hc|].
+        cbn [fst snd]. apply orb_true_iff. right. apply existsb_exists. exists m. split; [exact Hin|].
+        unfold module_faulty. rewrite E0, K2, F0. reflexivity. }
+      rewrite S1. reflexivity.
+  - assert (S1 : stage1_fails records results = true).
+    { unfold stage1_fails. apply orb_true_iff. right. apply existsb_exists. exists (r, ms). split; [exact Hc|].
+      cbn [fst snd]. apply orb_true_iff. right. apply existsb_exists. exists m. split; [exact Hin|].
+      unfold module_faulty. rewrite E0, K2. reflexivity. }
+    rewrite S1. reflexivity.
+Qed.
+
+Lemma failing_result_protects_file : forall records results tl hk w w' res i r ms m,
+  write_to_file records results tl hk w = (w', res) ->
+  nth_error records i = Some r -> nth_error results i = Some ms -> In m ms ->
+  ms_kind m <> 0 ->
+  (ms_kind m <> 2 \/ ms_fault m <> 0 \/ late_faulty (ms_late m) = true) ->
+  w_file w' = w_file w /\ exists k, res = Err k.
+Proof.
+  intros records results tl hk w w' res i r ms m H Hr Hm Hin K0 Hbad.
+  pose proof (failing_result_fails records results tl i r ms m Hr Hm Hin K0 Hbad) as C.
+  destruct (write_atomic _ _ _ _ _ _ _ H) as [Hf _]. destruct (Hf C) as [F [k [E _]]].
+  split; [exact F | exists k; exact E].
+Qed.
+
+(* the failures the run-time specification insists on are failures of the model (the converse fails exactly
+   for plans whose only fault is a raising bool(value)) *)
+Lemma core_fails_conversion_fails : forall records results tl,
+  core_fails records results tl = true -> conversion_fails records results tl = true.
+Proof.
+  intros records results tl H. unfold core_fails in H. unfold conversion_fails.
+  destruct (stage1_core_fails records results) eqn:S.
+  - assert (S1 : stage1_fails records results = true).
+    { unfold stage1_core_fails in S. unfold stage1_fails. apply orb_true_iff in S. apply orb_true_iff.
+      destruct S as [S|S]; [left; exact S|right].
+      apply existsb_exists in S. destruct S as [p [Hp Hx]]. apply existsb_exists. exists p. split; [exact Hp|].
+      apply orb_true_iff in Hx. destruct Hx as [Hx|Hx]; rewrite Hx; [reflexivity|].
+      rewrite orb_true_r. reflexivity. }
+    rewrite S1. reflexivity.
+  - cbn [orb] in H. destruct (stage1_fails records results); [reflexivity|]. exact H.
+Qed.
+
+(* a stated limit: in reuse mode prepare_output_directory deletes the stale region GenBank files before the
+   analysis; when a conversion fails afterwards (here: an empty results object whose to_json raises) the previous
+   JSON survives and the failure is reported, but those files are gone.  The property speaks of the results file *)
+Lemma failed_reuse_run_loses_region_files :
+  exists pl v entries records results w' r es,
+    run_antismash pl v 1 true false entries records results 0 (initial_world 0) = (w', r, 1, es) /\
+    conversion_fails records results 0 = true /\ w_file w' = COld /\ r = Err E_Value /\
+    exists e, In e entries /\ en_region e = true /\ ~ In e es.
+Proof.
+  exists (mkPP 0 true 0 0 [mkRP false 0 true 0] 0 0 false), env_nolog,
+         [mkE 0 0 true false false false; mkE 1 1 true false false true],
+         [mkR 0 0 0 0 false], [[mkM 2 1 11 0 2 0 0]].
+  eexists. eexists. eexists. split; [vm_compute; reflexivity|].
+  split; [reflexivity|]. split; [reflexivity|]. split; [reflexivity|].
+  exists (mkE 1 1 true false false true). split; [right; left; reflexivity|]. split; [reflexivity|].
+  intros [H|[]]. discriminate.
 Qed.
